@@ -22,6 +22,7 @@ import (
 	"encoding/base64"
 	"encoding/hex"
 	"encoding/json"
+	"encoding/pem"
 	"errors"
 	"fmt"
 	"context"
@@ -305,6 +306,212 @@ func execRoll(o hx.Op) string {
 	return "ok body=" + hx.Hex(ca.body)
 }
 
+// apiCA answers every endpoint with a success and keeps the first POST per URL.
+type apiCA struct {
+	nonce string
+	terms bool
+	posts map[string][]byte
+}
+
+const caBase = "https://ca.invalid/"
+
+func (ca *apiCA) RoundTrip(req *http.Request) (*http.Response, error) {
+	h := http.Header{}
+	kind := strings.TrimPrefix(req.URL.String(), caBase)
+	code, body := 200, "{}"
+	switch {
+	case req.Method == "GET":
+		h.Set("Replay-Nonce", ca.nonce)
+		d := map[string]interface{}{"newAccount": caBase + "acct", "newOrder": caBase + "order", "revokeCert": caBase + "revoke", "newAuthz": caBase + "newauthz"}
+		if ca.terms {
+			d["meta"] = map[string]string{"termsOfService": caBase + "tos"}
+		}
+		b, _ := json.Marshal(d)
+		body = string(b)
+	case req.Method == "POST":
+		b, _ := io.ReadAll(req.Body)
+		if _, seen := ca.posts[kind]; !seen {
+			ca.posts[kind] = b
+		}
+		h.Set("Replay-Nonce", "next")
+		h.Set("Location", caBase+"acct/1")
+		switch kind {
+		case "acct":
+			code = 201
+		case "order", "newauthz":
+			code, body = 201, `{"status":"pending"}`
+		case "order/1", "authz/1":
+			body = `{"status":"valid"}`
+		case "fin/1":
+			h.Set("Location", caBase+"order/1")
+			body = `{"status":"valid","certificate":"` + caBase + `cert/1"}`
+		case "cert/1":
+			body = string(pem.EncodeToMemory(&pem.Block{Type: "CERTIFICATE", Bytes: []byte{0x30, 0x03, 0x02, 0x01, 0x01}}))
+		}
+	default:
+		return nil, errors.New("unexpected request")
+	}
+	return &http.Response{StatusCode: code, Status: "200 OK", Header: h, Body: io.NopCloser(strings.NewReader(body)), Request: req, ProtoMajor: 1, ProtoMinor: 1}, nil
+}
+
+func hexStrs(s string) []string {
+	var out []string
+	if s == "-" || s == "" {
+		return nil
+	}
+	for _, e := range strings.Split(s, ",") {
+		out = append(out, string(hx.UnHex(e)))
+	}
+	return out
+}
+
+var apiURL = map[string]string{"register": "acct", "getreg": "acct", "updatereg": "acct/1", "deactivate": "acct/1", "neworder": "order",
+	"getorder": "order/1", "waitorder": "order/1", "fetchcert": "cert/1", "alternates": "cert/1", "getauthz": "authz/1", "waitauthz": "authz/1",
+	"revokeauthz": "authz/1", "getchal": "chal/1", "accept": "chal/1", "finalize": "fin/1", "revoke": "revoke", "authorize": "newauthz", "authorizeip": "newauthz"}
+
+func execApi(o hx.Op) string {
+	m := o.Str("m")
+	target, ok := apiURL[m]
+	pub := parsePub(o.Str("key"))
+	if !ok || pub == nil {
+		return "bad-op"
+	}
+	acct := scriptedFrom(pub, o.Str("sig"))
+	if acct == nil {
+		return "bad-op"
+	}
+	ca := &apiCA{nonce: string(o.Hex("nonce")), terms: o.Str("tos") == "1", posts: map[string][]byte{}}
+	c := &acme.Client{Key: acct, KID: acme.KeyID(o.Hex("kid")), DirectoryURL: caBase + "dir", HTTPClient: &http.Client{Transport: ca},
+		RetryBackoff: func(int, *http.Request, *http.Response) time.Duration { return 0 }}
+	ctx := context.Background()
+	var err error
+	switch m {
+	case "register":
+		a := &acme.Account{Contact: hexStrs(o.Str("contact"))}
+		if e := o.Str("eab"); e != "-" {
+			k, key, _ := strings.Cut(e, ":")
+			a.ExternalAccountBinding = &acme.ExternalAccountBinding{KID: string(hx.UnHex(k)), Key: hx.UnHex(key)}
+		}
+		c.KID = ""
+		_, err = c.Register(ctx, a, acme.AcceptTOS)
+	case "getreg":
+		c.KID = ""
+		_, err = c.GetReg(ctx, "ignored")
+	case "updatereg":
+		_, err = c.UpdateReg(ctx, &acme.Account{Contact: hexStrs(o.Str("contact"))})
+	case "deactivate":
+		err = c.DeactivateReg(ctx)
+	case "neworder":
+		var ids []acme.AuthzID
+		if s := o.Str("ids"); s != "-" {
+			for _, e := range strings.Split(s, ",") {
+				t, v, _ := strings.Cut(e, ":")
+				ids = append(ids, acme.AuthzID{Type: string(hx.UnHex(t)), Value: string(hx.UnHex(v))})
+			}
+		}
+		var opts []acme.OrderOption
+		if nb := string(o.Hex("nb")); nb != "" {
+			t, _ := time.Parse(time.RFC3339, nb)
+			opts = append(opts, acme.WithOrderNotBefore(t))
+		}
+		if na := string(o.Hex("na")); na != "" {
+			t, _ := time.Parse(time.RFC3339, na)
+			opts = append(opts, acme.WithOrderNotAfter(t))
+		}
+		_, err = c.AuthorizeOrder(ctx, ids, opts...)
+	case "getorder":
+		_, err = c.GetOrder(ctx, caBase+target)
+	case "waitorder":
+		_, err = c.WaitOrder(ctx, caBase+target)
+	case "fetchcert":
+		_, err = c.FetchCert(ctx, caBase+target, true)
+	case "alternates":
+		_, err = c.ListCertAlternates(ctx, caBase+target)
+	case "getauthz":
+		_, err = c.GetAuthorization(ctx, caBase+target)
+	case "waitauthz":
+		_, err = c.WaitAuthorization(ctx, caBase+target)
+	case "revokeauthz":
+		err = c.RevokeAuthorization(ctx, caBase+target)
+	case "getchal":
+		_, err = c.GetChallenge(ctx, caBase+target)
+	case "accept":
+		ch := &acme.Challenge{URI: caBase + target, Token: "t"}
+		if p := o.Hex("payload"); len(p) > 0 {
+			ch.Payload = json.RawMessage(p)
+		}
+		_, err = c.Accept(ctx, ch)
+	case "finalize":
+		_, _, err = c.CreateOrderCert(ctx, caBase+target, o.Hex("csr"), true)
+	case "revoke":
+		var ck crypto.Signer
+		if o.Has("ckey") {
+			cs := scriptedFrom(parsePub(o.Str("ckey")), o.Str("sig"))
+			if cs == nil {
+				return "bad-op"
+			}
+			ck = cs
+		}
+		err = c.RevokeCert(ctx, ck, o.Hex("cert"), acme.CRLReasonCode(o.Int("reason")))
+	case "authorize":
+		_, err = c.Authorize(ctx, string(o.Hex("val")))
+	case "authorizeip":
+		_, err = c.AuthorizeIP(ctx, string(o.Hex("val")))
+	}
+	body, sent := ca.posts[target]
+	if !sent {
+		if err != nil {
+			return "err"
+		}
+		return "nothing-sent"
+	}
+	var jws struct{ Protected, Payload, Signature string }
+	if json.Unmarshal(body, &jws) != nil {
+		return "bad-jws-json"
+	}
+	prot, e1 := base64.RawURLEncoding.DecodeString(jws.Protected)
+	pay, e2 := base64.RawURLEncoding.DecodeString(jws.Payload)
+	sig, e3 := base64.RawURLEncoding.DecodeString(jws.Signature)
+	if e1 != nil || e2 != nil || e3 != nil {
+		return "bad-jws-base64"
+	}
+	return fmt.Sprintf("ok req=%s prot=%s payload=%s sig=%s", target, hx.Hex(prot), hx.Hex(pay), hx.Hex(sig))
+}
+
+var oidACMEIdentifier = asn1.ObjectIdentifier{1, 3, 6, 1, 5, 5, 7, 1, 31}
+
+func execChal(o hx.Op) string {
+	pub := parsePub(o.Str("key"))
+	if pub == nil {
+		return "bad-op"
+	}
+	c := &acme.Client{Key: &scripted{pub: pub}}
+	tok := string(o.Hex("token"))
+	h, err1 := c.HTTP01ChallengeResponse(tok)
+	d, err2 := c.DNS01ChallengeRecord(tok)
+	cert, err3 := c.TLSALPN01ChallengeCert(tok, "example.org")
+	if err1 != nil || err2 != nil || err3 != nil {
+		return "err"
+	}
+	if c.HTTP01ChallengePath(tok) != "/.well-known/acme-challenge/"+tok {
+		return "bad-path"
+	}
+	leaf, err := x509.ParseCertificate(cert.Certificate[0])
+	if err != nil {
+		return "bad-cert"
+	}
+	alpn := "missing"
+	for _, e := range leaf.Extensions {
+		if e.Id.Equal(oidACMEIdentifier) {
+			var v []byte
+			if _, err := asn1.Unmarshal(e.Value, &v); err == nil && e.Critical {
+				alpn = hx.Hex(v)
+			}
+		}
+	}
+	return fmt.Sprintf("ok http01=%s dns01=%s alpn=%s", hx.Hex([]byte(h)), d, alpn)
+}
+
 func execB64(o hx.Op) string {
 	d := o.Hex("data")
 	e := base64.RawURLEncoding.EncodeToString(d)
@@ -334,6 +541,10 @@ func exec(line string) string {
 		return execB64(o)
 	case "roll":
 		return execRoll(o)
+	case "api":
+		return execApi(o)
+	case "chal":
+		return execChal(o)
 	}
 	return "bad-op"
 }
@@ -578,28 +789,104 @@ func genRoll(g *hx.Gen) {
 	g.Stat("rollover")
 }
 
+var apiMethods = []string{"register", "getreg", "updatereg", "deactivate", "neworder", "getorder", "waitorder", "fetchcert", "alternates", "getauthz",
+	"waitauthz", "revokeauthz", "getchal", "accept", "finalize", "revoke", "authorize", "authorizeip"}
+
+func genContacts(r *hx.Rand, g *hx.Gen) string {
+	var cs []string
+	for k := r.Intn(3); k > 0; k-- {
+		cs = append(cs, hx.Hex([]byte("mailto:"+genStr(r, g, 8, "contact")+"@example.org")))
+	}
+	return hx.JoinStrs(cs)
+}
+
+// genApi: one public signing method of acme.Client with a scripted account key
+func genApi(g *hx.Gen, m string) {
+	r := g.R
+	key := scriptedPub(r, g)
+	kid := "https://ca.invalid/acct/1"
+	nonce := "n" + genStr(r, g, 16, "nonce")
+	extra := ""
+	switch m {
+	case "register":
+		eab := "-"
+		if r.Chance(1, 2) {
+			eab = hx.Hex([]byte("eab-"+genStr(r, g, 6, "kid"))) + ":" + hx.Hex(r.Bytes(hx.Pick(r, []int{0, 16, 32, 64, 65})))
+			g.Stat("api.register-with-eab")
+		}
+		extra = fmt.Sprintf(" tos=%d contact=%s eab=%s", r.Intn(2), genContacts(r, g), eab)
+	case "updatereg":
+		extra = " contact=" + genContacts(r, g)
+	case "neworder":
+		var ids []string
+		for k := r.Intn(4); k > 0; k-- {
+			ids = append(ids, hx.Hex([]byte(hx.Pick(r, []string{"dns", "ip"})))+":"+hx.Hex([]byte(hx.Pick(r, []string{"example.org", "*.example.net", "192.0.2.1", "a<b>&c"}))))
+		}
+		nb, na := "-", "-"
+		if r.Chance(1, 3) {
+			nb = hx.Hex([]byte(time.Unix(int64(r.Range(0, 2000000000)), 0).UTC().Format(time.RFC3339)))
+		}
+		if r.Chance(1, 3) {
+			na = hx.Hex([]byte(time.Unix(int64(r.Range(0, 2000000000)), 0).UTC().Format(time.RFC3339)))
+		}
+		extra = fmt.Sprintf(" ids=%s nb=%s na=%s", hx.JoinStrs(ids), nb, na)
+	case "finalize":
+		extra = " csr=" + hx.Hex(r.Bytes(r.Range(0, 60)))
+	case "revoke":
+		extra = fmt.Sprintf(" cert=%s reason=%d", hx.Hex(r.Bytes(r.Range(0, 40))), hx.Pick(r, []int{0, 1, 2, 3, 4, 5, 6, 8, 9, 10}))
+		if r.Bool() {
+			extra += " ckey=" + scriptedPub(r, g)
+			g.Stat("api.revoke-with-cert-key")
+		}
+	case "accept":
+		extra = " payload=" + hx.Pick(r, []string{"-", hx.Hex([]byte(`{}`)), hx.Hex([]byte(`{"keyAuthorization":"t.abc"}`))})
+	case "authorize":
+		extra = " val=" + hx.Hex([]byte(hx.Pick(r, []string{"example.org", "xn--bcher-kva.example", "a\"b"})))
+	case "authorizeip":
+		extra = " val=" + hx.Hex([]byte(hx.Pick(r, []string{"192.0.2.1", "2001:db8::1"})))
+	}
+	// the signature script must fit the key that signs: same kind of key for account and certificate key
+	sigKey := key
+	if strings.Contains(extra, "ckey=") {
+		ck := extra[strings.Index(extra, "ckey=")+5:]
+		if strings.HasPrefix(ck, "rsa") != strings.HasPrefix(key, "rsa") {
+			key = ck // use one kind of key for both roles
+		}
+		sigKey = ck
+	}
+	g.Stat("api." + m)
+	g.Emit("api m=%s key=%s kid=%s nonce=%s sig=%s%s", m, key, hx.Hex([]byte(kid)), hx.Hex([]byte(nonce)), scriptedSig(r, g, sigKey), extra)
+}
+
 func gen(g *hx.Gen) {
 	r := g.R
 	n := g.Count(6000, 250000)
+	apiN := 0
 	for i := 0; i < n; i++ {
-		switch c := r.Intn(20); {
-		case c < 9:
+		switch c := r.Intn(40); {
+		case c < 14:
 			genScriptedJws(g)
-		case c < 12:
+		case c < 19:
 			genRealJws(g)
-		case c < 15:
+		case c < 23:
 			g.Emit("jwk key=%s", scriptedPub(r, g))
 			g.Stat("op.jwk-thumbprint")
-		case c < 17:
+		case c < 25:
 			key := r.Bytes(hx.Pick(r, []int{0, 1, 16, 32, 64, 65, 100}))
 			g.Stat("op.mac")
 			g.Emit("mac key=%s kid=%s url=%s raw=%s", hx.Hex(key), hx.Hex([]byte(genStr(r, g, 16, "kid"))), hx.Hex([]byte(genURL(r, g))), hx.Hex(r.Bytes(r.Intn(80))))
-		case c < 19:
+		case c < 27:
 			key := r.Bytes(hx.Pick(r, []int{0, 16, 32, 32, 64, 65}))
 			g.Stat("op.eab")
 			g.Emit("eab acct=%s key=%s kid=%s url=%s", scriptedPub(r, g), hx.Hex(key), hx.Hex([]byte(genStr(r, g, 16, "kid"))), hx.Hex([]byte(genURL(r, g))))
-		case c < 20 && i%2 == 0:
+		case c < 29:
 			genRoll(g)
+		case c < 36:
+			apiN++
+			genApi(g, apiMethods[apiN%len(apiMethods)])
+		case c < 38:
+			g.Emit("chal key=%s token=%s", scriptedPub(r, g), hx.Hex([]byte(genStr(r, g, 20, "token"))))
+			g.Stat("op.chal-key-authorization")
 		default:
 			g.Emit("b64 data=%s", hx.Hex(r.Bytes(r.Intn(40))))
 		}
